@@ -33,6 +33,12 @@ pub struct Setup {
     /// the worker proper is pid 2 of the new pid namespace (two forks; a traced worker is followed through them)
     #[serde(default)]
     pub userns: bool,
+    /// one-shot mode: run the operation from a thread that has its OWN descriptor table (unshare(CLONE_FILES)) while the
+    /// thread-group leader holds descriptors of this directory on the numbers the thread is going to use (look-alikes for
+    /// anything that inspects /proc/self/fd instead of /proc/thread-self/fd). Format "first|rest": the lowest free number gets
+    /// `first` (where a resolver keeps its copy of the root), 47 more get `rest`. A traced worker is followed into the thread.
+    #[serde(default)]
+    pub thread_decoy: Option<String>,
 }
 
 #[derive(Serialize, Deserialize, Clone, Debug, Default, PartialEq, Eq)]
